@@ -514,6 +514,9 @@ Spec == Init /\ [][Next]_vars
 Bounded == \A i \in IPs : /\ pendUnban[i] <= MaxPend /\ pendUnbl[i] <= MaxPend
                           /\ Len(adm[i]) <= MaxAdm
 
+\* generation of ALL bounded histories (hist in the fingerprint): a Query ends the history
+QueryLast == \A k \in 1..(Len(hist) - 1) : hist[k].a # "Query"
+
 \* ---- properties (C18) -----------------------------------------------------------------------
 TypeOK == /\ clock \in 0..MaxClock
           /\ \A i \in IPs : /\ ban[i].k \in {"none", "temp", "perm"} /\ \A f \in Forms : bl[i][f].k \in {"none", "temp", "perm"}
